@@ -1,8 +1,52 @@
-import PvlModel.Model.Encoder
-import PvlModel.Model.Spec
+import PvlModel.Lemmas.DateTime
 /-!
-# C14
-(theorems are added below as they are proved; see DESIGN §5)
+# C14 — date and time values keep their type, instant and time-zone meaning
+
+Proved here (unbounded): **every calendar date round-trips** — for every encoder configuration and every
+date `datetime.date` admits (years 1–9999, real month lengths, leap years), the text the encoder writes,
+`%04d-%02d-%02d`, is read by each of the decoders as that same date and nothing else.  The proof goes
+through the model of CPython's `_strptime` (format → regular expression with alternatives in the written
+order → back-tracking match → calendar fields): `strptime_ymd` in `Lemmas/DateTime.lean`.
+
+The only fact about the grammar tables that is used is that `"%Y-%m-%d"` is the first date format; it is
+evaluated on the five tables regenerated from /repo.
+
+Times and date-times (fractional seconds, trailing `Z`, zone offsets, leap seconds, the PDS3
+restrictions) are decided by the generator's independent reading of each spelling against the real
+decoders and the model (`vlib/props/c14.py`); their theorems are open.
 -/
 namespace Pvl
+open Py Enc
+
+/-- the date formats of every generated table begin with `%Y-%m-%d` -/
+theorem dateFormats_head :
+    ∀ g ∈ [Gen.pvl, Gen.odl, Gen.pds, Gen.isis, Gen.omni], g.dateFormats.head? = some fmtYmd := by decide
+
+theorem decodeDatetimeBase_date (g : Grammar) (hg : g.dateFormats.head? = some fmtYmd) (y m d : Nat)
+    (h : ValidDate y m d) : decodeDatetimeBase g (encodeDate y m d) = some (.date y m d) := by
+  unfold decodeDatetimeBase
+  cases hf : g.dateFormats with
+  | nil => simp [hf] at hg
+  | cons f r =>
+    simp [hf] at hg
+    subst hg
+    simp [firstSome, strptime_ymd y m d h]
+
+/-- **C14, dates read back**: each decoder class reads `%04d-%02d-%02d` as that date -/
+theorem C14_date_decodes (dc : Dec) (hg : dc.g.dateFormats.head? = some fmtYmd) (y m d : Nat)
+    (h : ValidDate y m d) : decodeDatetime dc (encodeDate y m d) = .ok (.date y m d) := by
+  have hb := decodeDatetimeBase_date dc.g hg y m d h
+  unfold decodeDatetime
+  cases dc.kind <;> simp [hb, decodeDatetimeOdl]
+
+/-- **C14, dates round-trip**: what any encoder writes for a date, its own decoder reads as that date -/
+theorem C14_date_roundtrip (c : EncCfg) (hg : c.d.g.dateFormats.head? = some fmtYmd) (y m d : Nat)
+    (h : ValidDate y m d) :
+    ∃ text, encodeValue c (.date y m d) = .ok text ∧ decodeDatetime c.d text = .ok (.date y m d) := by
+  refine ⟨encodeDate y m d, by simp [encodeValue, encodeSimple], C14_date_decodes c.d hg y m d h⟩
+
+/-- leap day: 29 February exists exactly in leap years (non-vacuity of `ValidDate` at its edge) -/
+example : ValidDate 2000 2 29 ∧ ¬ ValidDate 1900 2 29 ∧ ValidDate 1 1 1 ∧ ValidDate 9999 12 31 := by
+  simp [ValidDate, daysInMonth, isLeap]
+
 end Pvl
